@@ -127,7 +127,7 @@ pub fn check(case: &Case) -> Verdict {
         }
         // the result depends on the operands only
         let h = hist::mix(&[hist::mix_str(&case.amount), case.ty as u64, from as u64, to as u64]);
-        if h % 4 == 0 {
+        if h % 16 == 0 {
             if let Some(m) = hist::independent(h, &|| hist::show_q((rv.convert)(q, to))) {
                 fail!("{}: converting {} to {} {}", tname, c.describe_q(case.ty, q), c.models[case.ty].row.units[to].konst, m);
             }
